@@ -48,7 +48,7 @@ CHECK = {
                             "thinning": "checkerboard half of (start, step) only; 7 tangent angles"}},
     "parts": [
         {"name": "field", "harness": "c08_field", "flavour": "rel",
-         "shards": {"quick": 16, "thorough": 16}, "deadline": {"quick": 300, "thorough": 2400}},
+         "shards": {"quick": 16, "thorough": 16}, "deadline": {"quick": 600, "thorough": 2400}},
     ],
 }
 
